@@ -133,6 +133,12 @@ let handle kind a =
           | _ -> failwith "fq") (split_on ',' a.(1)) in
       let (rs, s) = afq_run recs { as_bytes = []; as_script = parse_ascript a.(0); as_polls = O } in
       Some (fmt_asink (fmt_results rs) s)
+  | "awfmt" ->
+      (* awfmt fmt seed script ops: ops = buffers per explicit operation of the fault-free life *)
+      let ops = if a.(3) = "_" then [] else
+        List.map (fun o -> if o = "-" then [] else List.map bytes_of_hex (split_on ',' o)) (split_on ';' a.(3)) in
+      let (rs, s) = as_run ops { as_bytes = []; as_script = parse_ascript a.(2); as_polls = O } in
+      Some (fmt_asink (fmt_results rs) s)
   | "ixc" ->
       (* ixc bai script unplaced refs | ixc gzi script entries: write_index as the chain of write_all
          calls the model derives from the index (bytes = C17's layout models) *)
